@@ -169,7 +169,7 @@ struct Finder {
 };
 
 // (T) all intersections with |x - x0| + |y - y0| <= R (plus a margin), lines given as doubles
-static std::vector<XY> find_all(const EllCfg& e, RLine<ld>& X, RLine<ld>& Y, double x0, double y0, double R, Finder& st) {
+static std::vector<XY> find_all(const EllCfg& e, RLine<ld>& X, RLine<ld>& Y, double x0, double y0, double R, Finder& st, int diag_c = 0) {
   const double h = STEP * e.a / gh::WGS84_A, Rm = R + 3 * h;
   long n = (long)std::ceil(2 * Rm / h);
   Sampler S(e.a, e.b); std::vector<std::array<double, 3>> sx, sy;
@@ -194,6 +194,7 @@ static std::vector<XY> find_all(const EllCfg& e, RLine<ld>& X, RLine<ld>& Y, dou
   st.ncand += (long)cands.size();
   for (const Cand& cd : cands) {
     ld x = (ld)(x0 - Rm) + cd.i * (ld)h, y = (ld)(y0 - Rm) + cd.j * (ld)h;
+    if (diag_c && std::fabs((double)(x - diag_c * y)) < 3 * h) continue;      // coincident lines from a common start: the trivial diagonal
     // skip starts that can only lead to an intersection already found: the injectivity radius of the ellipsoid is
     // >= pi / sqrt(Kmax) (Klingenberg), so two different intersections differ by at least that much in x or in y
     bool skip = false;
@@ -560,6 +561,59 @@ static void sec_nearparallel(Ctx& c, uint64_t idx) {
   flow(c, P, par, x0, y0, false);
 }
 
+// first zero of the reduced length m12(s) along the reference geodesic from (lat, azi), s > 0 (dir = +1) or s < 0 (dir = -1)
+static double conjugate_dist(const EllCfg& e, double lat, double azi, int dir) {
+  ref::GeodLine<ld> L(*e.El, (ld)lat, (ld)azi, std::signbit(azi));
+  const ld step = 2e5L * e.a / gh::WGS84_A, smax = 1.6L * M_PI * std::max(e.a, e.b);
+  ld s0 = 0.25L * M_PI * std::min(e.a, e.b), m0 = L.at_dist(dir * s0).m12;
+  for (ld s1 = s0 + step; s1 < smax; s1 += step) {
+    ld m1 = L.at_dist(dir * s1).m12;
+    if ((m0 < 0) != (m1 < 0)) {
+      ld a = s0, b = s1, ma = m0;
+      for (int it = 0; it < 200 && b - a > 1e-10L; ++it) { ld mid = (a + b) / 2, mm = L.at_dist(dir * mid).m12; if ((mm < 0) == (ma < 0)) { a = mid; ma = mm; } else b = mid; }
+      return (double)(dir * (a + b) / 2);
+    }
+    s0 = s1; m0 = m1;
+  }
+  return std::numeric_limits<double>::quiet_NaN();
+}
+// Next on coincident (c = +1) / reversed (c = -1) lines from a common start: the next intersections on the coincidence line are the
+// conjugate points of the start (zeros of m12) in both directions, (s, c s) with L1 = 2|s|; besides them the geodesic may cross
+// itself (c = 0).  The documented answer is the L1-nearest of all of these.
+static void check_next_coincident(Ctx& c, Pair& P, int csense) {
+  EllCfg& e = *P.e; const Intersect& I = *e.in; int ci = 99, ci2 = 99;
+  Intersect::Point q = I.Next(P.lX, P.lY, &ci), q2 = I.Next(P.latX, P.lonX, P.aziX, P.aziY, &ci2);
+  J w = P.j().f("x", q.first).f("y", q.second).i("c", ci);
+  if (!(vh::same_bits(q.first, q2.first) && vh::same_bits(q.second, q2.second) && ci == ci2)) c.viol("law:C17/intersect/Next/overloads-differ", P.cls, w);
+  c.event("coincident Next judged");
+  if (!member(c, P, "Next(coincident)", q.first, q.second, true, w)) return;
+  if (!c_ok(ci, c_from_tangents(P, q.first, q.second))) c.viol("oracle:C17/intersect/Next/coincidence-indicator", P.cls, w);
+  if (L1(q.first, q.second) < 1e3) { c.viol("oracle:C17/intersect/Next/returned-the-origin", P.cls, w); return; }
+  double sf = conjugate_dist(e, P.latX, P.aziX, +1), sb = conjugate_dist(e, P.latX, P.aziX, -1);
+  if (!(std::isfinite(sf) && std::isfinite(sb))) { c.herr("no conjugate point found on a coincident pair"); return; }
+  const double Tc = 4 * P.Tgap(sf, sf);
+  // a result with c != 0 lies on the coincidence line (y = c x) and is a conjugate point of the start
+  if (ci != 0) {
+    ref::GeodLine<ld> L(*e.El, (ld)P.latX, (ld)P.aziX, std::signbit(P.aziX)); double m12 = (double)L.at_dist((ld)q.first).m12;
+    c.obs("intersect Next(coincident): |m12| at the returned conjugate point / tolerance [" + e.name + "]", std::fabs(m12) / Tc, w);
+    if (std::fabs(q.second - ci * q.first) > Tc) c.viol("oracle:C17/intersect/Next/coincident-result-off-the-coincidence-line", P.cls, w);
+    if (std::fabs(m12) > Tc) c.viol("oracle:C17/intersect/Next/coincident-result-is-not-a-conjugate-point", P.cls, J(w).f("m12", m12).f("conj_fwd", sf).f("conj_bwd", sb).f("tol", Tc));
+    if (ci != csense) c.viol("oracle:C17/intersect/Next/coincidence-indicator", P.cls, J(w).i("expected_c", csense));
+  }
+  // optimality: L1 minimum over {forward, backward conjugate point, genuine self-crossings}
+  Finder st; std::vector<XY> cr = find_all(e, P.rX, P.rY, 0, 0, 1.25 * e.circ, st, csense);
+  c.event("certificate runs (coincident lines: conjugate points + self-crossings)");
+  double best = std::min(2 * sf, 2 * std::fabs(sb)), tolb = 2 * Tc; const char* which = 2 * sf <= 2 * std::fabs(sb) ? "forward conjugate point" : "backward conjugate point";
+  for (const XY& p : cr) { double d = L1((double)p.x, (double)p.y); if (d > 1e3 && std::min(p.angle, M_PI - p.angle) > 1e-6 && d < best) { best = d; tolb = Txy(P, p) + 2 * Tc; which = "self-crossing"; } }
+  double dl = L1(q.first, q.second);
+  c.obs("intersect Next(coincident): (L1 returned - L1 min) / tolerance [" + e.name + "]", (dl - best) / tolb, w);
+  if (dl > best + tolb) c.viol("oracle:C17/intersect/Next/coincident-not-the-next-nearest", P.cls, J(w).f("L1_returned", dl).f("L1_min", best).str("nearest", which).f("conj_fwd", sf).f("conj_bwd", sb).i("self_crossings", (long long)cr.size()));
+  if (ci == 0) {      // a crossing result must be one of the certificate's self-crossings
+    if (match(P, cr, q.first, q.second) < 0) c.viol("oracle:C17/intersect/Next/intersection-unknown-to-certificate", P.cls, J(w).str("certificate", liststr(cr, 0, 0)));
+  }
+  c.event("coincident Next judged against conjugate points");
+}
+
 static void sec_coincident(Ctx& c, uint64_t idx) {
   vh::Rng& r = c.rng; EllCfg& e = pick_ell(r);
   double a, b, cc, d, f, g; int expect; std::string geo;
@@ -591,14 +645,7 @@ static void sec_coincident(Ctx& c, uint64_t idx) {
       if (!c_ok(cv[k], c_from_tangents(P, v[k].first, v[k].second))) c.viol("oracle:C17/intersect/All/coincidence-indicator", P.cls, J(wa).i("k", (long long)k).i("ck", cv[k])); }
     if (v.empty() && L1(p.first, p.second, x0, y0) <= md) c.viol("oracle:C17/intersect/All/empty-although-Closest-is-within-maxdist", P.cls, wa);
     c.event("coincident All judged"); }
-  if (idx % 7 < 2) {     // same starting point: Next must give a further (conjugate) intersection on the coincident line, not the origin
-    Intersect::Point q = I.Next(P.lX, P.lY, &ci); J wn = P.j().f("x", q.first).f("y", q.second).i("c", ci);
-    if (member(c, P, "Next(coincident)", q.first, q.second, true, wn)) {
-      if (!c_ok(ci, c_from_tangents(P, q.first, q.second))) c.viol("oracle:C17/intersect/Next/coincidence-indicator", P.cls, wn);
-      if (L1(q.first, q.second) < 1e3) c.viol("oracle:C17/intersect/Next/returned-the-origin", P.cls, wn);
-    }
-    c.event("coincident Next judged");
-  }
+  if (idx % 7 < 2) check_next_coincident(c, P, idx % 7 == 0 ? 1 : -1);     // same starting point
 }
 
 static void sec_segment(Ctx& c, uint64_t idx) {
